@@ -89,7 +89,8 @@ def run_cases(pid, cases, tier, nproc=None, timeout=None, log=print, worker_env_
 def classify(pid, viol, known):
     """Return the known-finding entry matching this violation's mechanism class, if any."""
     for f in known.get("findings", []):
-        if f.get("property") == pid and viol.get("cls") in f.get("classes", []):
+        props = f.get("properties") or [f.get("property")]
+        if pid in props and viol.get("cls") in f.get("classes", []):
             return f
     return None
 
